@@ -1,4 +1,5 @@
 import GramModel.Lemmas.Eval
+import GramModel.Lemmas.DeBruijn
 
 /-!
 # C02 — running a program yields the value the call-by-value semantics prescribes
@@ -116,6 +117,13 @@ that definition with the variable again bound to the group. -/
 def C02_let_fix_unfold_stmt : Prop :=
   ∀ (x : Name) (ann d : Tm), isValue d = true →
     Steps (.letg (.cons x ann d .nil) (.var x 0)) (unfoldDef x ann d 0)
+theorem C02_let_fix_unfold : C02_let_fix_unfold_stmt := by
+  intro x ann d hv
+  have h1 := @Step.letU x ann d .nil (.var x 0) hv
+  have e : openT (.var x 0) 0 (unfoldDef x ann d 0) 0 = unfoldDef x ann d 0 := by
+    simp [openT, ushift_zero]
+  simp only [Defs.len_nil, openDefs, e] at h1
+  exact Steps.head h1 (Steps.head Step.letNil Steps.refl)
 
 /-! ## Non-vacuity -/
 
@@ -133,3 +141,56 @@ example : Steps C02_fact (.lit 120) := by
   exact h ▸ evalFuel_steps 200 C02_fact
 -- truncation toward zero on a negative dividend
 example : delta .quot (-7) 2 = some (.lit (-3)) := by decide
+
+/-! ## More of the big-step reading (T2) -/
+
+/-- The result of the fuelled evaluator does not depend on the fuel once it has stopped. -/
+def C02_eval_fuel_stable_stmt : Prop :=
+  ∀ (n m : Nat) (t : Tm), step (evalFuel n t) = none → n ≤ m → evalFuel m t = evalFuel n t
+theorem C02_eval_fuel_stable : C02_eval_fuel_stable_stmt := by
+  intro n
+  induction n with
+  | zero =>
+    intro m t h _
+    simp only [evalFuel] at h ⊢
+    cases m <;> simp [evalFuel, h]
+  | succ n ih =>
+    intro m t h hm
+    cases m with
+    | zero => omega
+    | succ m =>
+      simp only [evalFuel] at h ⊢
+      cases hs : step t with
+      | none => rfl
+      | some t' =>
+        simp only [hs] at h ⊢
+        exact ih m t' h (by omega)
+
+/-- Left operand first, then the right one, then the δ-rule. -/
+def C02_bin_order_stmt : Prop :=
+  ∀ (op : BinOp) (a b : Tm) (x y : Int) (r : Tm), Steps a (.lit x) → Steps b (.lit y) →
+    delta op x y = some r → Steps (.bin op a b) r
+theorem C02_bin_order : C02_bin_order_stmt := by
+  intro op a b x y r ha hb hd
+  have l1 : ∀ {a a' : Tm}, Steps a a' → Steps (.bin op a b) (.bin op a' b) := by
+    intro a a' h
+    induction h with
+    | refl => exact Steps.refl
+    | head h _ ih => exact Steps.head (Step.binL h) ih
+  have l2 : ∀ {b b' : Tm}, Steps b b' → Steps (.bin op (.lit x) b) (.bin op (.lit x) b') := by
+    intro b b' h
+    induction h with
+    | refl => exact Steps.refl
+    | head h _ ih => exact Steps.head (Step.binR rfl h) ih
+  exact Steps_trans (l1 ha) (Steps_trans (l2 hb) (Steps.head (Step.delta hd) Steps.refl))
+
+/-- Definitions of a group are evaluated in order: the first definition is evaluated to a value
+before anything else happens to the group. -/
+def C02_let_first_stmt : Prop :=
+  ∀ (x : Name) (ann d d' : Tm) (rest : Defs) (body : Tm), Steps d d' →
+    Steps (.letg (.cons x ann d rest) body) (.letg (.cons x ann d' rest) body)
+theorem C02_let_first : C02_let_first_stmt := by
+  intro x ann d d' rest body h
+  induction h with
+  | refl => exact Steps.refl
+  | head h _ ih => exact Steps.head (Step.letD h) ih
